@@ -55,6 +55,8 @@ DEPENDS = [
     # the components finam ships: what the scheduling proofs assume about IComponent.update is checked on them
     (("finam.components.",), ("C01", "C02", "C03", "C20")),
     (("finam.adapters.time.", "finam.adapters.time_integration.", "finam.sdk.adapter.Adapter."), ("C01", "C05", "C06", "C09", "C10", "C11", "C12", "C13")),
+    # metadata exchange through adapters: what connect (and with it cycle detection and validation) waits for
+    (("finam.sdk.adapter.Adapter.get_info", "finam.sdk.adapter.Adapter.exchange_info", "finam.sdk.adapter.TimeDelayAdapter.get_info"), ("C03", "C04", "C06", "C07", "C19", "C20")),
     # validation guards the premises of the data-flow properties (single consumer below a buffering adapter, connected inputs ...)
     (("finam.schedule._check_", "Composition._validate_composition"), ("C01", "C03", "C05", "C06", "C09", "C10", "C11", "C12", "C13", "C19", "C20")),
     (("finam.tools.connect_helper.",), ("C04", "C05", "C06", "C07")),
